@@ -42,6 +42,7 @@ inductive CErr
   | valueOutOfRange     -- ExecutionError('property','valueOutOfRange'): enumeration value not in the table
   | valueError          -- ValueError("unrecognized present value …") in MinOnOffTask
   | recursion           -- RecursionError (fuel exhausted) – proved unreachable
+  | monitorError        -- an exception raised by a user monitor of presentValue
   | notModelled         -- a property other than presentValue / priorityArray (C15's domain)
 deriving DecidableEq, Repr, Inhabited
 
@@ -52,6 +53,7 @@ def CErr.name : CErr → String
   | .valueOutOfRange => "exec:property:valueOutOfRange"
   | .valueError => "python:ValueError"
   | .recursion => "python:RecursionError"
+  | .monitorError => "python:MonitorBoom"
   | .notModelled => "notModelled"
 
 /-- which property a `WriteProperty` call names -/
@@ -216,6 +218,7 @@ structure Rule (V : Type) where
   trigger : Option V        -- none = on every change
   prio : Option Int
   value : Option V          -- none = relinquish
+  raises : Bool := false    -- the callback raises instead of commanding
 deriving Repr
 
 /-- state of an object with user monitors: the command state plus firings left per rule -/
@@ -245,6 +248,12 @@ def runRules {V} [DecidableEq V]
   | [], _, m => (m, none)
   | r :: rs, k, m =>
     if r.fires new (leftAt m.left k) then
+      if r.raises then
+        -- the exception leaves `Property.WriteProperty` with the new value stored (and
+        -- whatever earlier monitors did): nothing is rolled back, later monitors are
+        -- not called, the caller of the outermost WriteProperty sees the exception
+        ({ m with left := decrAt m.left k }, some .monitorError)
+      else
       match call { m with left := decrAt m.left k } r.value r.prio with
       | (m', some e) => (m', some e)
       | (m', none) => runRules call new rs (k + 1) m'
